@@ -360,6 +360,19 @@ Theorem C02_batch_error_prefix : forall H s x cz,
 Proof. exact batch_error_prefix. Qed.
 Print Assumptions C02_batch_error_prefix.
 
+(** a history of TPMExecute calls (single commands and Commands slices of any
+    nesting, any causes) that all return nil leaves banks, SupportedAlgos and
+    event log exactly where the value model is after the FLAT history of their
+    single commands, every one of which is executed: the theorems about [run]
+    (frame, closed form of a bank, reference TPM) apply to such histories *)
+Theorem C02_exec_history_flat : forall H ops s,
+  forallb is_exec ops = true ->
+  Forall ok_res (xresults H s ops) ->
+  same_core (core (xrun H s ops)) (run H (proj s) (log_flat (entries_of ops))) /\
+  Forall ok_res (results H (proj s) (log_flat (entries_of ops))).
+Proof. exact exec_history_flat. Qed.
+Print Assumptions C02_exec_history_flat.
+
 (** no operation of the API level panics (16-bit algorithm identifiers) *)
 Theorem C02_exec_no_panic : forall H s o,
   match o with
@@ -479,6 +492,22 @@ Example xops1_premises :
   Forall ok_res (xresults H0 xfresh xops1) /\
   get (pcrs (fst (replay_on_new H0 (xrun H0 xfresh xops1)))) 0 4 = Ok (repeat 22 20).
 Proof. split; [reflexivity|]. split; [reflexivity|]. split; [repeat constructor|vm_compute; reflexivity]. Qed.
+
+(** Commands.Apply on single commands: all executed / stopped at the refused one *)
+Example commands_apply_example :
+  let st := fst (apply H0 fresh (Startup 3)) in
+  seq_apply H0 st [Extend 0 4 [1; 2]; LogAdd 1 4 [] 3 None] = (arun H0 st [Extend 0 4 [1; 2]; LogAdd 1 4 [] 3 None], Ok tt) /\
+  snd (seq_apply H0 st [Extend 0 4 [1; 2]; Extend 2 4 []; Extend 1 4 [5]]) = Err ERR_NO_PCR /\
+  fst (seq_apply H0 st [Extend 0 4 [1; 2]; Extend 2 4 []; Extend 1 4 [5]]) = arun H0 st [Extend 0 4 [1; 2]] /\
+  set_value (pcrs st) 2 4 [1] = (pcrs st, Err ERR_NO_PCR) /\
+  snd (set_value (pcrs st) 1 12 [1]) = Err ERR_NO_BANK.
+Proof. vm_compute. auto. Qed.
+
+(** [xops1] flattened: the value-model history of [C02_exec_history_flat] *)
+Example xops1_flat :
+  log_flat (entries_of xops1) = [Startup 3; Extend 0 4 [1; 2]; Extend 1 4 [5]; Extend 0 11 []] /\
+  proj xfresh = fresh.
+Proof. split; reflexivity. Qed.
 
 (** a Commands slice that returns an error is not without effect: the extend
     before the refused one stays (this is Commands.Apply as documented; the
